@@ -1076,12 +1076,22 @@ def _job_flat(a, env, seed):
             (lambda: None, {}),
             (lambda: T.SubscribeOptions(match="prefix"), {"match": "prefix"}),
             (lambda: T.SubscribeOptions(match="wildcard", get_retained=True), {"match": "wildcard", "get_retained": True}),
+            (lambda: T.SubscribeOptions(get_retained=True), {"get_retained": True}),
+            (lambda: T.SubscribeOptions(match="exact"), {}),        # the default policy is not spelled out
             (lambda: T.SubscribeOptions(details=True), {})]):
         cases.append(("subscribe", "none", i, mk, exp))
     for i, (mk, exp) in enumerate([
             (lambda: None, {}),
             (lambda: T.RegisterOptions(match="prefix"), {"match": "prefix"}),
             (lambda: T.RegisterOptions(invoke="roundrobin", concurrency=2), {"invoke": "roundrobin", "concurrency": 2}),
+            # every option alone (no option rides on another one being given)
+            (lambda: T.RegisterOptions(concurrency=3), {"concurrency": 3}),
+            (lambda: T.RegisterOptions(invoke="single", concurrency=1), {"concurrency": 1}),
+            (lambda: T.RegisterOptions(invoke="random"), {"invoke": "random"}),
+            (lambda: T.RegisterOptions(invoke="first"), {"invoke": "first"}),
+            (lambda: T.RegisterOptions(invoke="last"), {"invoke": "last"}),
+            (lambda: T.RegisterOptions(force_reregister=True), {"force_reregister": True}),
+            (lambda: T.RegisterOptions(match="wildcard", concurrency=2), {"match": "wildcard", "concurrency": 2}),
             (lambda: T.RegisterOptions(details=True), {})]):
         cases.append(("register", "none", i, mk, exp))
     cases = cases[a["part"]::a["parts"]]
